@@ -225,15 +225,20 @@ class CtlWorld:
                 self.await_pairs.append({"s": s, "k": k, "text": text, "tw": tw})
 
     # -- commands -------------------------------------------------------------------------------------------------
-    def connect(self, s, width=80, handshake=True):
+    def connect(self, s, width=80, handshake=True, style=0):
         reader = asyncio.StreamReader()
         writer = FakeWriter(self, s)
         self.sessions[s] = {"reader": reader, "writer": writer, "writes": 0, "task": None, "lines": 0, "unanswered": []}
         self.ev("connect", s=s, width=0 if width is None else width)      # 0 = JSON null: the width is left to the server
         task = self.loop.create_task(self.session_main(s, reader, writer), name="S%d" % s)
         self.sessions[s]["task"] = task
+        self.sessions[s]["style"] = style
         if handshake:
-            reader.feed_data(json.dumps({"terminal_width": width}).encode() + b"\n")
+            info = {"terminal_width": width}
+            if style == 1:
+                # a client of another make: more keys in its handshake, CRLF line ends, blanks around its lines
+                info = {"client": "other/1.0", "terminal_width": width, "colors": False}
+            reader.feed_data(json.dumps(info).encode() + (b"\r\n" if style == 1 else b"\n"))
 
     async def session_main(self, s, reader, writer):
         try:
@@ -276,7 +281,10 @@ class CtlWorld:
             st["unanswered"].append((st["lines"], tw, doc, deferred))
         self.ev("send", s=s, k=st["lines"], text=text, cls=cls, cmd=cmd, ref=ref, blank=blank, twin=norm(twin_res), twk=twk,
                 twinkind=kind, hascall=call is not None, ser=ser, twi=(tw if tw is not None else -1), doc=doc)
-        st["reader"].feed_data(text.encode() + b"\n")
+        if st.get("style") == 1 and not blank:
+            st["reader"].feed_data(b"  " + text.encode() + b" \r\n")
+        else:
+            st["reader"].feed_data(text.encode() + b"\n")
 
     def eof(self, s):
         self.sessions[s]["over"] = True
@@ -366,7 +374,7 @@ class CtlWorld:
             for c in script:
                 k = c["c"]
                 if k == "connect":
-                    self.connect(c["s"], c.get("width", 80), c.get("handshake", True))
+                    self.connect(c["s"], c.get("width", 80), c.get("handshake", True), c.get("style", 0))
                 elif k == "send":
                     self.send(c["s"], c["text"], c.get("cls", ""), c.get("call"), c.get("cmd", ""), c.get("ref", ""), c.get("ser", True))
                 elif k == "eof":
